@@ -77,7 +77,7 @@ def run_case(case, ctx):
             ctx.violation("spelling-rejected", f"{run.describe(r)}: an accepted spelling was rejected",
                           {"op": k})
         named = []
-        if k == "store" and is_ok(r.out):
+        if k == "store" and is_ok(r.out) and "ok" in r.exp:
             om, data = r.out[1], run.contents[op["c"]]
             want = set(r.exp["ok"]["keys"])
             got = set(om.hex_digests)
